@@ -23,6 +23,9 @@ def perform(run, action, prev_state, new_state):
         if got != want:
             return 'specification runs handle %r, implementation has %r' % (want, got)
         return None
+    if action == 'EnvComplete':
+        run.complete(params[0], params[1][0], params[1][1])
+        return None
     if action == 'EnvSave':
         run.snapshot()
         return None
@@ -76,7 +79,7 @@ def compare(run, state, fields=None):
 def replay_path(progs, plans, nodes, init, path, run_kw=None):
     S0 = nodes[init]['S']
     pr = progs[S0['pi'] - 1]
-    run = core_real.Run(pr['steps'], plans[S0['pl'] - 1], pr['outMissing'], **(run_kw or {}))
+    run = core_real.Run(pr['steps'], plans[S0['pl'] - 1], pr['outMissing'], awt=pr.get('awt', ()), **(run_kw or {}))
     prev = nodes[init]
     d = compare(run, prev)
     if d:
